@@ -53,7 +53,17 @@ func ModelSafe(u *Universe, d *Desc, v reflect.Value) bool {
 		}
 		return true
 	case KDictE:
-		return access(access(v.FieldByName("m")).FieldByName("keys")).Len() == 0
+		m := access(v.FieldByName("m"))
+		vals := access(m.FieldByName("values"))
+		if access(m.FieldByName("keys")).Len() != vals.Len() {
+			return false
+		}
+		for i := 0; i < vals.Len(); i++ {
+			if !ModelSafe(u, d.Elem2, vals.Index(i)) {
+				return false
+			}
+		}
+		return true
 	case KEncErr, KOpaque, KUnsupported:
 		return false
 	}
